@@ -360,7 +360,10 @@ def assemble(template_path, repo):
                 cs, info = expand_fn(src, item_path, subs, log, tline)
             else:
                 cs, info = expand_item(src, item_path, subs, log, tline)
+            l0 = sum(c.text.count('\n') for c in chunks) + 1
             chunks.extend(cs)
+            l1 = sum(c.text.count('\n') for c in chunks)
+            info['out_lines'] = (l0, l1)
             extracted.append(info)
     # build text + line map
     out_lines = []
